@@ -61,6 +61,7 @@ type Staking struct {
 	n        int
 	unstaked map[string][]unst // validator name -> pending unstakes
 	Boundary bool              // push stakes around the election boundary
+	Exit     bool              // several validators leave the active set in one block, and come back later
 }
 
 type unst struct {
@@ -133,6 +134,33 @@ func (s *Staking) Plan(c *Ctx) []hist.TxSpec {
 		out = append(out, s.unstake(c, vals[0], 600, "validator unstakes part"))
 		if len(cands) > 1 {
 			out = append(out, s.stake(c, cands[1], min, "second candidate stakes exactly the minimum"))
+		}
+		return out
+	case 3:
+		// the same delegator unstakes twice in one block: both amounts mature at the same height
+		if len(vals) > 1 {
+			out = append(out, s.unstake(c, vals[1], 300, "first of two unstakes in one block"), s.unstake(c, vals[1], 200, "second of two unstakes in one block"))
+		}
+		return out
+	}
+	if s.Exit && (s.n == 6 || s.n == 22) {
+		// every genesis validator but the two strongest drops to a stake of 1 in the same block
+		for i, v := range vals {
+			if !v.InGenesis || i >= c.W.P.NumGenesisVals-2 {
+				continue
+			}
+			if cur := StakeOf(c.S, v.ValAddr).Int64(); cur > 1 {
+				out = append(out, s.unstake(c, v, cur-1, "mass exit: unstake down to 1"))
+			}
+		}
+		return out
+	}
+	if s.Exit && s.n == 14 {
+		for i, v := range vals {
+			if !v.InGenesis || i >= c.W.P.NumGenesisVals-2 {
+				continue
+			}
+			out = append(out, s.stake(c, v, min+int64(100*i), "mass return: stake back in"))
 		}
 		return out
 	}
